@@ -2,6 +2,7 @@
 From Coq Require Import ZArith List Bool String.
 From KM Require Import Base.Bytes Model.Auth Model.AuthGate Model.Routes Proofs.AuthGate.
 From KM Require Model.IPExt Proofs.IPExt.
+From KM Require Import Model.GateObs Proofs.GateObs.
 Import ListNotations.
 Open Scope N_scope.
 
@@ -234,6 +235,29 @@ Theorem c06_old_tls_refuted :
      check_auth_gen true false now lim deny required q = Admit u l iat /\ hasb l required = false).
 Proof. split; [exact old_role_refuted|exact old_mask_refuted]. Qed.
 Print Assumptions c06_old_tls_refuted.
+
+(* The property's predicate on OBSERVATIONS.  When the correspondence reports a case on which the code and
+   the model differ, the case file evaluates on the observed output of that case the boolean
+   [gate_conclusion] (direct call: the implementation admitted (u, l)) resp. [acceptsb] / [identity_okb]
+   (probe through a route: an effect was seen / an identity was logged).  These booleans are exactly the
+   conclusions of c06_gate_sound and c06_routes: a case on which they are false is an input on which the
+   implementation does what the theorems exclude. *)
+Theorem c06_obs_gate_is_spec : forall now deny required q u l,
+  gate_conclusion now deny required q u l = true <->
+  (proves now deny q u l /\ hasb l required = true /\ (q_meth q <> GET -> origin_ok q)).
+Proof. exact gate_conclusion_iff. Qed.
+Print Assumptions c06_obs_gate_is_spec.
+
+Theorem c06_obs_route_is_spec : forall env q g, acceptsb env q g = true <-> accepts env q g.
+Proof. exact acceptsb_iff. Qed.
+Print Assumptions c06_obs_route_is_spec.
+
+Theorem c06_obs_identity_is_spec : forall env q m u,
+  identity_okb env q m u = true <->
+  exists l, proves (e_now env) (e_deny env) q u l /\ hasb l (mask_val (e_webui env) m) = true /\
+            (q_meth q <> GET -> origin_ok q).
+Proof. exact identity_okb_iff. Qed.
+Print Assumptions c06_obs_identity_is_spec.
 
 (* ---- non-vacuity ---- *)
 Definition inside_cert : tlsx :=
